@@ -26,13 +26,31 @@ fn tid() -> String {
     TID.with(|t| t.borrow().clone())
 }
 
+static RECORD: AtomicBool = AtomicBool::new(true);
+static PANICS: AtomicUsize = AtomicUsize::new(0);
+static WRONG: AtomicUsize = AtomicUsize::new(0);
+
 fn emit(mut e: J) {
+    if !RECORD.load(Ordering::Relaxed) {
+        if e["ev"] == "ret" {
+            let r = e["res"].as_str().unwrap_or("");
+            if r.starts_with("panic") {
+                PANICS.fetch_add(1, Ordering::SeqCst);
+            } else if r.starts_with("other") {
+                WRONG.fetch_add(1, Ordering::SeqCst);
+            }
+        }
+        return;
+    }
     let seq = verif_hooks::next_seq();
     e["seq"] = J::from(seq);
     EVENTS.lock().unwrap_or_else(|p| p.into_inner()).push(e);
 }
 
 fn emit_at(seq: u64, mut e: J) {
+    if !RECORD.load(Ordering::Relaxed) {
+        return;
+    }
     e["seq"] = J::from(seq);
     EVENTS.lock().unwrap_or_else(|p| p.into_inner()).push(e);
 }
@@ -282,6 +300,12 @@ pub fn run(args: &[String]) {
     let threads = sc["threads"].as_array().unwrap().clone();
     let nthreads = threads.len();
     let sched = sc["mode"] == "sched";
+    // "hammer": every thread repeats its call list `repeat` times, nothing is recorded; only deadlock / panic / impossible
+    // results are reported (C13: no deadlock, no panic under sustained concurrent registration and evaluation)
+    let repeat = sc["repeat"].as_u64().unwrap_or(1) as usize;
+    if sc["mode"] == "hammer" {
+        RECORD.store(false, Ordering::SeqCst);
+    }
     verif_hooks::set_probe(Some(Arc::new(probe_cb)));
     if let Some(s) = sc.get("sync") {
         // {"handler": "h1", "then_thread": k}: when handler h1 is entered, thread k is released and h1 waits for it to finish
@@ -310,8 +334,10 @@ pub fn run(args: &[String]) {
                 }
             }
             yield_point("thread:start");
-            for (i, c) in calls.as_array().unwrap().iter().enumerate() {
-                do_call(c, i + 1);
+            for _ in 0..repeat {
+                for (i, c) in calls.as_array().unwrap().iter().enumerate() {
+                    do_call(c, i + 1);
+                }
             }
             if sync_thread == Some(k) {
                 if let Some((_, _, done)) = SYNC.lock().unwrap().clone() {
@@ -380,7 +406,7 @@ pub fn run(args: &[String]) {
         out.line(e);
     }
     let parked: Vec<(String, String)> = g.waiting.lock().unwrap().iter().map(|(a, b)| (a.clone(), b.clone())).collect();
-    out.line(&json!({"summary": {"events": evs.len(), "deadlock": deadlock, "parked": parked}}));
+    out.line(&json!({"summary": {"events": evs.len(), "deadlock": deadlock, "parked": parked, "panics": PANICS.load(Ordering::SeqCst), "impossible_results": WRONG.load(Ordering::SeqCst)}}));
     out.flush();
     if deadlock {
         std::process::exit(0);
